@@ -202,3 +202,16 @@ def only(items, what):
     if len(items) != 1:
         raise AnalysisError('expected exactly one %s, found %d' % (what, len(items)))
     return items[0]
+
+
+def is_bytes_mode_text_guard(test, var, enc_is_none=True):
+    """exactly  `self.encoding is None and not isinstance(<var>, bytes)`  (either operand order);
+    with enc_is_none=False:  `self.encoding is not None and isinstance(<var>, bytes)`"""
+    if not (isinstance(test, ast.BoolOp) and isinstance(test.op, ast.And) and len(test.values) == 2):
+        return False
+    texts = sorted(norm(v) for v in test.values)
+    if enc_is_none:
+        want = sorted(['self.encoding is None', 'not isinstance(%s, bytes)' % var])
+    else:
+        want = sorted(['self.encoding is not None', 'isinstance(%s, bytes)' % var])
+    return texts == want
